@@ -1,6 +1,7 @@
 package props
 
 import (
+	"encoding/base64"
 	"fmt"
 	"regexp"
 	"strings"
@@ -307,12 +308,94 @@ func (c *c19ctx) injectXML() {
 	c.say(what + " -> exit != 0 with a message")
 }
 
+// injectBase64: several base64 inputs, one of them with an incomplete last group (its padding left off, a character
+// missing) together with a line break: the run either fails, or prints the complete text - never a shortened one.
+func (c *c19ctx) injectBase64() {
+	c.group = "B-inject"
+	c.tag("kind:syntax", "input:base64")
+	nf := 1 + c.r.IntN(3)
+	j := c.r.IntN(nf)
+	var names, texts []string
+	var full string
+	for fi := 0; fi < nf; fi++ {
+		v := c.str().S
+		if fi == j {
+			for len(v)%3 == 0 { // the last group is incomplete only when the length is not a multiple of three
+				v += "x"
+			}
+			full = v
+		}
+		enc := base64.StdEncoding.EncodeToString([]byte(v))
+		text := enc
+		if fi == j {
+			raw := strings.TrimRight(enc, "=")
+			cut := 4
+			if len(raw) < 8 {
+				cut = len(raw) / 2
+			}
+			text = []string{raw + "\n", raw[:cut] + "\n" + raw[cut:], raw[:len(raw)-1] + "\n", raw + "\r\n", raw[:cut] + "\n" + raw[cut:] + "\n", " " + raw}[c.r.IntN(6)]
+			c.note("broken_document", text)
+		}
+		name := fmt.Sprintf("f%d.b64", fi)
+		c.write(name, text)
+		names = append(names, name)
+		texts = append(texts, v)
+	}
+	c.tag(fmt.Sprintf("at:f%d", j))
+	what := fmt.Sprintf("base64 file %d of %d ends in an incomplete group", j, nf)
+	mode := []string{"eval", "eval-all"}[c.r.IntN(2)]
+	args := []string{mode, "-p=base64", "-o=json", "-I0", "."}
+	if c.r.IntN(4) == 0 {
+		args = []string{mode, "-e", "-p=base64", "-o=json", "-I0", "."}
+	}
+	x := c.yq(nil, append(args, names...)...)
+	if x.TimedOut {
+		return
+	}
+	got, err := ref.ParseJSONStream(string(x.Stdout))
+	if x.Exit == 0 {
+		// accepted: then in full
+		if err != nil || len(got) != nf {
+			c.violate("%s (%s): exit 0 with %d results for %d files (err=%v): %q", what, mode, len(got), nf, err, clipStr(string(x.Stdout), 300))
+			return
+		}
+		for i := range got {
+			if got[i].K != ref.Str || got[i].S != texts[i] {
+				c.violate("%s (%s): exit 0, nothing on stderr, and file %d decodes to %s - its text is %q (input %q)", what, mode, i, got[i].JSON(), texts[i], full)
+				return
+			}
+		}
+		c.res.Nontrivial = true
+		c.say(what + " -> accepted and decoded in full")
+		return
+	}
+	if !c.failedProperly(x, what+" ("+mode+")") {
+		return
+	}
+	if err != nil || len(got) > j {
+		c.violate("%s: stdout of the failed run holds %d results (err=%v), only %d files precede the failure: %q", what, len(got), err, j, clipStr(string(x.Stdout), 300))
+		return
+	}
+	for i := range got {
+		if got[i].K != ref.Str || got[i].S != texts[i] {
+			c.violate("%s: result #%d printed before the failure is %s, expected %q", what, i, got[i].JSON(), texts[i])
+			return
+		}
+	}
+	c.res.Nontrivial = true
+	c.say(what + " -> exit != 0 with a message")
+}
+
 func (c *c19ctx) injectB1(n int) {
 	c.group = "B-inject"
 	kinds := []string{"syntax", "missing", "dir", "type", "encode", "xml", "type", "syntax"}
 	kind := kinds[n%len(kinds)]
 	if kind == "xml" {
-		c.injectXML()
+		if c.r.IntN(2) == 0 {
+			c.injectBase64()
+		} else {
+			c.injectXML()
+		}
 		return
 	}
 	if kind == "syntax" && c.r.IntN(5) < 3 {
